@@ -148,6 +148,19 @@ class MembershipMonitor(Monitor):
         if not fresh and (post.log != pre.log or post.others != pre.others or not pre.alive or nid in dict(g) or
                           (len(pre.extra) > 2 and ('fresh', 1) in pre.extra)):
             self.check_members(model, post_w, post, ev, set(dorm.get(nid, ())))
+        # (3b) the transport is told about every member that comes or goes (otherwise the node never dials it / refuses it)
+        if pre.alive and not (len(pre.extra) > 2 and ('fresh', 1) in pre.extra):
+            told_add = set(o[1] for o in obs if o[0] == 'addnode')
+            told_drop = set(o[1] for o in obs if o[0] == 'dropnode')
+            for x in set(post.others) - set(pre.others):
+                if x not in told_add:
+                    raise core.Violation('C10 %s now lists %s as a member but never told its transport (addNode): it will neither dial nor '
+                                         'accept that node (%r)' % (nid, x, ev), sig='transport-not-told')
+            for x in set(pre.others) - set(post.others):
+                if x not in told_drop:
+                    raise core.Violation('C10 %s no longer lists %s as a member but its transport still does (no dropNode) (%r)' % (
+                        nid, x, ev), sig='transport-not-told')
+
         # (4) leader elected only with votes of a majority of its own member set, from members
         if post.leader_flag and not (pre.leader_flag and pre.term == post.term):
             votes = post_w.ghost[0].votes
